@@ -286,6 +286,12 @@ fn consuming<E: Elem>(ctx: &mut VCtx, name: &str, expect: Vec<u32>, f: impl FnOn
                 ledger_prop = "C07";
                 ctx.ev("alloc_refused")
             }
+            // an overflowing size computation is reported by unwinding as well (std::vec::Vec does the same here)
+            PanicKind::Msg(m) if m.contains("capacity overflow") && name.contains("lying size hint") => {
+                ledger_prop = "C07";
+                ctx.rep.count("capacity_overflow_unwound");
+                ctx.ev("panic_matched_model")
+            }
             k => ctx.viol("C08", format!("unexpected_panic:{}", name.split_whitespace().next().unwrap_or("?")), format!("{k:?}")),
         },
     }
@@ -567,13 +573,14 @@ where
                         expect.extend(removed.iter().rev().copied().take(take_back));
                         expect.push(u32::MAX);
                         expect.extend(exp_model.iter().copied());
-                        consuming::<E>(ctx, &format!("BumpVec::splice {a}..{b} with {n_new} new, pulling {take} front / {take_back} back"), expect, || {
+                        // one in four: the replacement iterator claims an absurd lower size bound, so making room for the
+                        // tail overflows the capacity computation and the method unwinds with "capacity overflow"
+                        let lie = ctx.rng.chance(1, 4);
+                        let hint = if lie { usize::MAX / 2 } else { n_new };
+                        consuming::<E>(ctx, &format!("BumpVec::splice {a}..{b} with {n_new} new{}, pulling {take} front / {take_back} back", if lie { " (lying size hint)" } else { "" }), expect, || {
                             let mut out: Vec<u32> = Vec::new();
                             {
-                                let mut sp = v.splice(a..b, news.iter().map(|x| {
-                                    tr::burn();
-                                    E::make(*x)
-                                }));
+                                let mut sp = v.splice(a..b, HintIter { it: news.iter().map(|x| E::make(*x)), hint });
                                 for _ in 0..take {
                                     match sp.next() {
                                         Some(e) => out.push(e.val()),
